@@ -44,7 +44,7 @@ PROP = dict(
               'Fit.C12.C12_slice', 'Fit.C12.C12_unit_identity', 'Fit.C12.C12_datetime', 'Fit.C12.C12_semicircles',
               'Fit.C12.C12_typed', 'Fit.C12.C12_typed_invalid', 'Fit.C12.C12_typed_witness_fixed', 'Fit.C12.C12_F07_witness_fixed',
               'Fit.C12.C12_typed_table', 'Fit.C12.C12_typed_all', 'Fit.C12.C12_typed_slice', 'Fit.C12.C12_typed_array',
-              'Fit.C12.C12_typed_slice_all', 'Fit.C12.C12_native_table', 'Fit.C12.C12_validator_dev', 'Fit.C12.C12_validator_dev_std',
+              'Fit.C12.C12_typed_slice_all', 'Fit.C12.C12_native_table', 'Fit.C12.C12_validator_dev', 'Fit.C12.C12_validator_dev_std', 'Fit.C12.C12_validator_dev_own',
               'Fit.C12.C12_validator_seq', 'Fit.C12.C12_csv_pairs', 'Fit.C12.C12_csv_text', 'Fit.C12.C12_csv_cell'],
     families=[dict(name='f64'), dict(name='scaleoffset', spec=True, shrink=False), dict(name='timeangle', spec=True, shrink=False)],
     trusted_base=STD_TRUST + [
@@ -74,9 +74,9 @@ TEXT = dict(
           'ROUTES, each for EVERY integer type of at most 32 bits, EVERY raw bit pattern of the type (the invalid sentinel is an ordinary value here) and '
           'EVERY profile pair: C12_helpers (Apply -> DiscardValue/DiscardAny scalar path, also the unit pair), C12_value_route (ApplyValue -> DiscardValue on '
           'proto.Value), C12_slice (ApplySlice -> DiscardSlice[T] and slice values, every element, any length), C12_validator (the encoder validator\'s '
-          'restoration of a native field), C12_validator_dev / _dev_std / _seq (a developer field mapped to a native field is restored with the base type / '
+          'restoration of a native field), C12_validator_dev / _dev_std / _dev_own / _seq (a developer field mapped to a native field is restored with the base type / '
           'scale / offset of ITS OWN native (message, field), in every state of one validator: the answer depends on the earlier messages only through the '
-          'developer data ids and field descriptions they announced; with the standard factory every scaled native field has a profile pair: C12_native_table), '
+          'developer data ids and field descriptions they announced; with the standard factory every scaled native field has a profile pair: C12_native_table; a description without native field but with a scale 1..254 and an int8 offset of its own: _dev_own), '
           'C12_csv (parseValue\'s scaled path), C12_csv_text (the text fitcsv writes for the scaled value of any such raw value contains a \'.\', so the reader '
           'takes the scaled path and never ParseUint/ParseInt: a whole value is written x.0, the values below 10^-4 are evaluated and are not one-digit '
           'decimals; side condition C12_csv_pairs kernel-checked over the profile), C12_csv_cell (both together). '
